@@ -13,6 +13,7 @@ theorem copyT_exec_c (hS : Struct reg s) (hc : cfg.copyNeverClears = true) (hW :
   unfold execCancel
   try unfold walkNext
   try unfold afterHint
+  try unfold applyReset
   repeat' split
   all_goals (try rw [‹s.pc t = _›] at g0t)
   all_goals (try simp [Pc.copyVal] at g0t)
@@ -26,6 +27,7 @@ theorem copyT_exec_b (hS : Struct reg s) (hc : cfg.copyNeverClears = true) (hW :
   unfold execBind
   try unfold walkNext
   try unfold afterHint
+  try unfold applyReset
   repeat' split
   all_goals (try rw [‹s.pc t = _›] at g0t)
   all_goals (try simp [Pc.copyVal] at g0t)
@@ -39,6 +41,7 @@ theorem copyT_exec_o (hS : Struct reg s) (hc : cfg.copyNeverClears = true) (hW :
   unfold execOther
   try unfold walkNext
   try unfold afterHint
+  try unfold applyReset
   repeat' split
   all_goals (try rw [‹s.pc t = _›] at g0t)
   all_goals (try simp [Pc.copyVal] at g0t)
@@ -55,7 +58,7 @@ theorem copyT_exec (hS : Struct reg s) (hc : cfg.copyNeverClears = true) (hW : W
     · exact copyT_exec_o hS hc hW
 
 theorem copyT_begin (hS : Struct reg s) (hc : cfg.copyNeverClears = true) (hW : Win s) (hi : s.pc t = .idle) :
-    ∀ t' p v, ((begin reg s t).pc t').copyVal = some (p, v) → v = true := by
+    ∀ t' p v, ((begin cfg reg s t).pc t').copyVal = some (p, v) → v = true := by
   have g0 := hW.copyT
   have g0t := hW.copyT t
   begin_cases
@@ -71,6 +74,7 @@ theorem winsLe_exec_c (hS : Struct reg s) (hc : cfg.copyNeverClears = true) (hW 
   unfold execCancel
   try unfold walkNext
   try unfold afterHint
+  try unfold applyReset
   repeat' split
   all_goals (intro x; try simp [upd_apply, afterLists, nextList] at  ⊢)
   all_goals grind []
@@ -82,6 +86,7 @@ theorem winsLe_exec_b (hS : Struct reg s) (hc : cfg.copyNeverClears = true) (hW 
   unfold execBind
   try unfold walkNext
   try unfold afterHint
+  try unfold applyReset
   repeat' split
   all_goals (intro x; try simp [upd_apply, afterLists, nextList] at  ⊢)
   all_goals grind []
@@ -93,6 +98,7 @@ theorem winsLe_exec_o (hS : Struct reg s) (hc : cfg.copyNeverClears = true) (hW 
   unfold execOther
   try unfold walkNext
   try unfold afterHint
+  try unfold applyReset
   repeat' split
   all_goals (intro x; try simp [upd_apply, afterLists, nextList] at  ⊢)
   all_goals grind []
@@ -107,7 +113,7 @@ theorem winsLe_exec (hS : Struct reg s) (hc : cfg.copyNeverClears = true) (hW : 
     · exact winsLe_exec_o hS hc hW
 
 theorem winsLe_begin (hS : Struct reg s) (hc : cfg.copyNeverClears = true) (hW : Win s) (hi : s.pc t = .idle) :
-    ∀ x, (begin reg s t).wins x ≤ (begin reg s t).resets x + 1 := by
+    ∀ x, (begin cfg reg s t).wins x ≤ (begin cfg reg s t).resets x + 1 := by
   have g0 := hW.winsLe
   have g1 := hW.winsClr
   begin_cases
@@ -123,6 +129,7 @@ theorem winsClr_exec_c (hS : Struct reg s) (hc : cfg.copyNeverClears = true) (hW
   unfold execCancel
   try unfold walkNext
   try unfold afterHint
+  try unfold applyReset
   repeat' split
   all_goals (try rw [‹s.pc t = _›] at g2t)
   all_goals (try simp [Pc.copyVal] at g2t)
@@ -138,6 +145,7 @@ theorem winsClr_exec_b (hS : Struct reg s) (hc : cfg.copyNeverClears = true) (hW
   unfold execBind
   try unfold walkNext
   try unfold afterHint
+  try unfold applyReset
   repeat' split
   all_goals (try rw [‹s.pc t = _›] at g2t)
   all_goals (try simp [Pc.copyVal] at g2t)
@@ -153,6 +161,7 @@ theorem winsClr_exec_o (hS : Struct reg s) (hc : cfg.copyNeverClears = true) (hW
   unfold execOther
   try unfold walkNext
   try unfold afterHint
+  try unfold applyReset
   repeat' split
   all_goals (try rw [‹s.pc t = _›] at g2t)
   all_goals (try simp [Pc.copyVal] at g2t)
@@ -169,7 +178,7 @@ theorem winsClr_exec (hS : Struct reg s) (hc : cfg.copyNeverClears = true) (hW :
     · exact winsClr_exec_o hS hc hW
 
 theorem winsClr_begin (hS : Struct reg s) (hc : cfg.copyNeverClears = true) (hW : Win s) (hi : s.pc t = .idle) :
-    ∀ x, (begin reg s t).can x = false → (begin reg s t).wins x ≤ (begin reg s t).resets x := by
+    ∀ x, (begin cfg reg s t).can x = false → (begin cfg reg s t).wins x ≤ (begin cfg reg s t).resets x := by
   have g0 := hW.winsLe
   have g1 := hW.winsClr
   have g2 := hW.copyT
